@@ -2,7 +2,7 @@ from .core import BASE_TRUST
 
 META = {
     "category": "proof",
-    "text": "Lean 4 theorem crash_old_or_new: for any number of tables, any contents and any interleaving of the tables' commit operations, after EVERY prefix (a crash at any instant) each existing table file holds its complete old or complete new contents, and is therefore usable again once the control files are deleted. The operation sequence is REGENERATED on every run from lib/file/handler.go and lib/query/transaction.go by extract/fsproto (so an edit of the commit code changes the definition the theorem is about); encode-before-swap, lock-before-temp, encode-into-an-emptied-file (truncate before every encode) and equality with the reviewed list are theorems over the regenerated effect lists. Tied to the running code by killing the real csvq process at every named point reached during COMMIT (os.Exit without deferred calls = SIGKILL for the file system) and inspecting the directory",
+    "text": "Lean 4 theorem crash_old_or_new: for any number of tables, any contents and any interleaving of the tables' commit operations, after EVERY prefix (a crash at any instant) each existing table file holds its complete old or complete new contents, and is therefore usable again once the control files are deleted. The operation sequence is REGENERATED on every run from lib/file/handler.go and lib/query/transaction.go by extract/fsproto (so an edit of the commit code changes the definition the theorem is about); encode-before-swap, lock-before-temp, encode-into-an-emptied-file (truncate and rewind before every encode) and equality with the reviewed list are theorems over the regenerated effect lists; at byte level (Model/FileBytes.lean: contents + write position under ftruncate/lseek/write, NUL-filled holes) a scanner over the regenerated loop bodies is proved sound (scan_sound) and gives gen_encode_loops_write_exact_bytes: the file swapped in is byte for byte the new encoding + ending line break for EVERY earlier content and position of the temp file and every cutting of the encoder's output into writes; the byte model itself is compared with the operating system on random truncate/seek/write sequences. Tied to the running code by killing the real csvq process at every named point reached during COMMIT (os.Exit without deferred calls = SIGKILL for the file system) and inspecting the directory",
     "design_ref": "DESIGN.md section 5, C10",
     "note": "trusted: Lean kernel; extract/fsproto (go/ast, fails closed); POSIX rename(2) replaces atomically; data written before close(2) is on disk after a crash (no page-cache model); the crash points are the VerifPoint hooks (build tag verif), i.e. between - not inside - system calls",
     "technique": "Lean 4 machine-checked proof over a regenerated operation sequence (parametric in contents, all prefixes, all table interleavings) + process-kill enumeration of every crash point of the real binary",
